@@ -29,7 +29,7 @@ ASSUMPTIONS = [
 ]
 PROBES = ["churn of 20-70 short-lived objects", "object outside bounds", "object across bounds", "negative coordinates", "zero-area box", "re-add after remove", "double add", "object spans >1 cell", "query on grid line"]
 TIERS = {
-    "quick": {"batches": 16, "runs": 2500, "budget_s": 40},
+    "quick": {"batches": 16, "runs": 2500, "budget_s": 90},
     "thorough": {"batches": 128, "runs": 20000, "budget_s": 900},
 }
 DETERMINISM_SLICE = 8
